@@ -45,6 +45,16 @@ through one world.  Every directive is labelled with the position (first /
 later) its task had in the component which handles it, read from the order of
 the state publications.
 
+Existing targets: part `pre` writes other bytes to the target before staging;
+in part `same` successive tasks (`A;C`: A is staged, run, staged out and
+checked before C is submitted) name one target in the pilot / session /
+resource sandbox or in a task sandbox they share via `description.sandbox`.
+Whether a target exists before its directive is carried out is read from the
+file system (attribute `pre`).  The code may refuse such a directive (task
+FAILED, bystander unaffected) or replace the target; passing the task on with
+the old bytes is `target-wrong-content|<backend>.<op>|...:target-preexists`
+(the backend operation, run alone on an existing target, keeps it silently).
+
 Reference (A.9)
 ---------------
 `schema:///p` -> sandbox(schema)/p for client, task, pilot, session, resource,
@@ -255,10 +265,11 @@ class Directive(object):
                                           self.src_shape, self.odd, tok),
                                  absdir, self.odd)
         if self.tgt_loc:
-            self.tgt_text = text_for(self.tgt_loc,
-                                     rel_name('tgt', direction, idx,
-                                              self.tgt_shape, None, tok),
-                                     absdir)
+            name = rel_name('tgt', direction, idx, self.tgt_shape, None, tok)
+            if spec.get('share'):
+                # several tasks name the same target
+                name = 'shared_%s.%s.dat' % (direction, tok)
+            self.tgt_text = text_for(self.tgt_loc, name, absdir)
             self.exp_tgt_text = self.tgt_text
         else:
             self.tgt_text     = None
@@ -281,6 +292,12 @@ class Directive(object):
         elif self.degenerate:
             self.refusable = 'source-is-target'
         self.carriable  = self.present
+        # the target exists (with other bytes) before the directive is carried
+        # out -- set by the harness when it looks at the file system.  The
+        # code may refuse such a directive (FAILED) or replace the target.
+        self.pre        = False
+        self.stale      = 'stale bytes at the target of %s %d (%s)\n' \
+                          % (direction, idx, self.action)
 
     # what the application writes into the description
     def as_input(self):
@@ -307,6 +324,8 @@ class Directive(object):
                                       kind_of(self.tgt_loc))
         if self.odd:
             ret += ':' + self.odd
+        if self.pre:
+            ret += ':target-preexists'
         return ret
 
     def site(self):
@@ -409,8 +428,11 @@ class World(object):
         self.tmgr_in.control_cb(rpc.CONTROL_PUBSUB, seams.wire(msg))
 
     # --------------------------------------------------------------------------
-    def task_sbx(self, uid):
-        return dict(self.sbx, task='%s/%s' % (self.sbx['pilot'], uid))
+    def task_sbx(self, uid, sandbox=None):
+        '''a relative `sandbox` of the description is a directory in the pilot
+        sandbox (documentation of TaskDescription.sandbox)'''
+        return dict(self.sbx, task='%s/%s' % (self.sbx['pilot'],
+                                              sandbox or uid))
 
     def move(self, src, tgt, merge=False):
         '''what Agent_0's proxy callbacks do: forward bulks between queues.
@@ -537,7 +559,8 @@ class TaskModel(object):
         self.letter  = letter
         self.uid     = UIDS[letter]
         self.test    = letter != 'B'       # task under test / bystander
-        self.sbx     = w.task_sbx(self.uid)
+        self.sandbox = spec.get('sandbox')
+        self.sbx     = w.task_sbx(self.uid, self.sandbox)
         self.outcome = getattr(rps, spec.get('outcome', 'DONE'))
         self.soe     = spec.get('soe', False)
         self.pos     = pos                 # submitted first / later
@@ -561,6 +584,7 @@ class TaskModel(object):
         if self.ins : d['input_staging']  = [x.as_input() for x in self.ins]
         if self.outs: d['output_staging'] = [x.as_input() for x in self.outs]
         if self.soe : d['stage_on_error'] = True
+        if self.sandbox: d['sandbox']     = self.sandbox
         return d
 
 
@@ -610,14 +634,16 @@ class Collector(report.Part):
         return ret
 
 
-ATTRS = ['direction', 'op', 'pos', 'action', 'form', 'src', 'src_shape', 'tgt',
-         'tgt_shape', 'odd']
+ATTRS = ['direction', 'op', 'pre', 'pos', 'action', 'form', 'src', 'src_shape',
+         'tgt', 'tgt_shape', 'odd']
 OPS   = {TRANSFER: 'copy', COPY: 'copy', LINK: 'link', MOVE: 'move',
          TARBALL : 'tar'}
 
 
 def attrs_of(d):
-    return (d.direction, OPS[d.action], d.pos, d.action, d.form, d.src_loc,
+    return (d.direction, OPS[d.action],
+            'target-preexists' if d.pre else '-', d.pos, d.action, d.form,
+            d.src_loc,
             d.src_shape, d.tgt_loc or 'default', d.tgt_shape or '-',
             d.odd or '-')
 
@@ -653,6 +679,25 @@ def backend_copy_fails(w, d):
         pass
     if read_file(tgt) != d.content:
         return type(stager._backend).__name__
+    return None
+
+
+def backend_keeps_stale(w, d):
+    """diagnosis: does the stager's own copy / link / move, run alone, leave
+    an existing target as it is without complaining?"""
+    stager = rpu.StagingHelper(seams.null())
+    src    = '%s/probe/stale.src.%d' % (w.absdir, d.idx)
+    tgt    = '%s/probe/stale.tgt.%d' % (w.absdir, d.idx)
+    write_file(src, 'new')
+    write_file(tgt, 'old')
+    op = OPS[d.action]
+    try:
+        getattr(stager, op)('file://localhost%s' % src,
+                            'file://localhost%s' % tgt)
+    except Exception:
+        return None
+    if read_file(tgt) != 'new':
+        return '%s.%s' % (type(stager._backend).__name__, op)
     return None
 
 
@@ -720,6 +765,11 @@ def check_targets(part, w, tm, directives, replay, verbose, obs):
             backend = backend_copy_fails(w, d)
             if backend:
                 site = '%s.copy' % backend
+        elif d.pre and d.action != TARBALL and \
+                what in ('wrong-content', 'not-a-link'):
+            fn = backend_keeps_stale(w, d)
+            if fn:
+                site = fn
 
         obs.append('%s:%s' % (d.action, what))
 
@@ -761,12 +811,21 @@ def aggregate(ctx, evals, fails, unst, multi):
     universe = set(evals.keys())
 
     # kinds of directives (direction, action) which are never carried out
+    # (the target stays missing -- or, if it existed before, untouched)
     never = set()
-    for da in set((u[0], u[3]) for u in universe):
-        members = [u for u in universe if (u[0], u[3]) == da]
-        if all(any(('missing', site, u) in fails
-                   for site in set(k[1] for k in fails)) for u in members):
+    sites = set(k[1] for k in fails)
+    for da in set((u[0], u[4]) for u in universe):
+        members = [u for u in universe if (u[0], u[4]) == da]
+        if all(any(('missing' if u[2] == '-' else 'wrong-content', site, u)
+                   in fails for site in sites) for u in members):
             never.add(da)
+    # ... for those the untouched existing target is the same symptom
+    fails = {k: v for k, v in fails.items()
+                  if not (k[0] == 'wrong-content' and k[2][2] != '-'
+                          and (k[2][0], k[2][4]) in never)}
+    evals = {k: v for k, v in evals.items()
+                  if not (k[2] != '-' and (k[0], k[4]) in never)}
+    universe = set(evals.keys())
     for (key, direction, action), (detail, replay) in sorted(unst.items()):
         if (direction, action) not in never:
             ctx.violation(key, detail, replay)
@@ -781,7 +840,7 @@ def aggregate(ctx, evals, fails, unst, multi):
     for (site, combos), (detail, replay) in sorted(multi.items()):
         if not any(('task-failed', site, c) in fails for c in combos):
             ctx.violation('good-task-failed|%s|%s' % (site, '+'.join(
-                          '%s:%s:%s' % (c[0], c[3], c[4]) for c in combos)),
+                          '%s:%s:%s' % (c[0], c[4], c[5]) for c in combos)),
                           detail, replay)
 
     n        = len(ATTRS)
@@ -834,7 +893,10 @@ def aggregate(ctx, evals, fails, unst, multi):
             detail  = dict(detail, classes=len(members),
                            directives=sum(evals.get(c, 0) for c in members))
             trigger = ','.join('%s=%s' % (ATTRS[i], v)
-                               for i, v in zip(S, val)) or 'every-directive'
+                               for i, v in zip(S, val)
+                               if v != 'target-preexists') or 'every-directive'
+            if 'target-preexists' in val:
+                trigger += ':target-preexists'
             clause  = 'good-task-failed' if what == 'task-failed' \
                                          else 'target-%s' % what
             ctx.violation('%s|%s|%s' % (clause, site, trigger),
@@ -940,10 +1002,13 @@ def set_positions(w, models, direction):
 
 def parse_order(order):
     """'AB' one submission, one bulk; 'B,A' separate submissions and bulks
-    (B first); trailing '+': bulks are forwarded merged between components"""
+    (B first); 'A;C' A goes through input staging, execution and output
+    staging (and is checked) before C is submitted; trailing '+': bulks are
+    forwarded merged between components"""
     merge  = order.endswith('+')
-    groups = [list(g) for g in order.rstrip('+').split(',')]
-    return groups, merge
+    rounds = [[list(g) for g in rnd.split(',')]
+              for rnd in order.rstrip('+').split(';')]
+    return rounds, merge
 
 
 def foreign_data(part, w, models, phase, replay, verbose):
@@ -952,17 +1017,21 @@ def foreign_data(part, w, models, phase, replay, verbose):
     every = [d for tm in models for d in tm.ins + tm.outs]
     for tm in models:
         own = set()
-        for d in tm.ins + tm.outs:
-            own.add(d.src_path)
-            own.add(d.tgt_path)
+        for t2 in models:
+            if t2.sbx['task'] == tm.sbx['task']:       # shared sandbox
+                for d in t2.ins + t2.outs:
+                    own.add(d.src_path)
+                    own.add(d.tgt_path)
         for dname, _, fnames in os.walk(tm.sbx['task']):
             for fname in fnames:
                 path = os.path.join(dname, fname)
-                if path in own or fname == '%s.tar' % tm.uid:
+                if path in own or fname.endswith('.tar'):
                     continue
                 content = read_file(path)
                 origin  = [d for d in every if d.content == content]
-                if origin and origin[0].owner == tm.uid:
+                if origin and [t2 for t2 in models
+                               if t2.uid == origin[0].owner and
+                                  t2.sbx['task'] == tm.sbx['task']]:
                     continue       # own data misplaced: the target clause
                 if origin:
                     d    = origin[0]
@@ -999,8 +1068,8 @@ def _check_case(part, case, root, verbose):
     replay = case
     obs    = list()
 
-    groups, merge = parse_order(case.get('order', 'AB'))
-    flat   = [x for g in groups for x in g]
+    rounds, merge = parse_order(case.get('order', 'AB'))
+    flat   = [x for groups in rounds for g in groups for x in g]
     specs  = dict(case.get('more', {}), A=case, B=bystander_spec())
     models = dict()
     for i, letter in enumerate(flat):
@@ -1011,319 +1080,349 @@ def _check_case(part, case, root, verbose):
     tests  = [tm for tm in order if tm.test]
     A      = models['A']
 
-    # -- input files -----------------------------------------------------------
-    for tm in order:
-        os.makedirs(tm.sbx['task'], exist_ok=True)
-        for d in tm.ins:
-            if d.present:
-                write_file(d.src_path, d.content)
+    def preexisting(tms, direction):
+        """write the stale targets the case asks for, then look which targets
+        exist before staging (also: left there by an earlier task)"""
+        for tm in tms:
+            for d in (tm.ins if direction == 'in' else tm.outs):
+                if d.spec.get('pre') and not d.degenerate \
+                        and not os.path.lexists(d.tgt_path):
+                    write_file(d.tgt_path, d.stale)
+                d.pre = os.path.lexists(d.tgt_path) and not d.degenerate \
+                        and d.present
 
-    # -- submission: real Task.__init__ -> expand_description ------------------
-    refused = False
-    try:
-        for g in groups:
-            tds = list()
-            for letter in g:
-                models[letter].expanded = dict()
-                tds.append(rp.TaskDescription(models[letter].description()))
-            w.tm.submit_tasks(tds)
-    except Exception as e:
-        refused = True
-        dirs  = [d for tm in tests for d in tm.ins + tm.outs]
-        forms = sorted(set(d.cls() for d in dirs))
-        if any(d.odd for d in dirs):
-            obs.append('refused-at-submit:%s' % type(e).__name__)
-        else:
-            part.violation('form-refused|%s|%s' % (SITE_EXPAND, forms[0]),
-                           {'what': 'submission of %r raised %r'
-                                    % ([tm.description() for tm in tests], e)},
-                           replay)
-            obs.append('refused-at-submit!')
-        if verbose:
-            print('  submit_tasks raised %r' % e)
-    if refused:
-        return tuple(obs)
+    seen = list()
 
-    w.pump(w.sched, rpc.TMGR_SCHEDULING_QUEUE)
-    pend = w.net.queues.get(rpc.TMGR_STAGING_INPUT_QUEUE) or []
-    for bulk in pend:
-        for t in bulk:
-            tm = by_uid[t['uid']]
-            for key, dirs in (('input_staging', tm.ins),
-                              ('output_staging', tm.outs)):
-                for d, sd in zip(dirs, t['description'].get(key) or []):
-                    tm.expanded[(d.direction, d.idx)] = (sd['source'],
-                                                         sd['target'],
-                                                         sd['action'])
+    def run_round(groups):
+        """one or more submissions which go through the staging components
+        together; returns False if the submission was refused"""
+        tasks = [models[x] for g in groups for x in g]
+        seen.extend(tasks)
+
+        # -- input files -----------------------------------------------------------
+        for tm in tasks:
+            os.makedirs(tm.sbx['task'], exist_ok=True)
+            for d in tm.ins:
+                if d.present:
+                    write_file(d.src_path, d.content)
+        preexisting(tasks, 'in')
+
+        # -- submission: real Task.__init__ -> expand_description ------------------
+        refused = False
+        try:
+            for g in groups:
+                tds = list()
+                for letter in g:
+                    models[letter].expanded = dict()
+                    tds.append(rp.TaskDescription(models[letter].description()))
+                w.tm.submit_tasks(tds)
+        except Exception as e:
+            refused = True
+            dirs  = [d for tm in tests for d in tm.ins + tm.outs]
+            forms = sorted(set(d.cls() for d in dirs))
+            if any(d.odd for d in dirs):
+                obs.append('refused-at-submit:%s' % type(e).__name__)
+            else:
+                part.violation('form-refused|%s|%s' % (SITE_EXPAND, forms[0]),
+                               {'what': 'submission of %r raised %r'
+                                        % ([tm.description() for tm in tests], e)},
+                               replay)
+                obs.append('refused-at-submit!')
             if verbose:
-                print('  %s sandboxes: %s' % (t['uid'],
-                      {k: t[k] for k in t if k.endswith('_sandbox')}))
-                print('  %s expanded : %s' % (t['uid'], tm.expanded))
+                print('  submit_tasks raised %r' % e)
+        if refused:
+            return False
 
-    # the sandboxes the real getters assigned must be the documented ones
-    for bulk in pend:
-        for t in bulk:
-            tm = by_uid[t['uid']]
-            for k in ('client', 'resource', 'session', 'pilot', 'task'):
-                got = os.path.normpath(ru.Url(t['%s_sandbox' % k]).path)
-                if got != tm.sbx[k]:
-                    part.violation('sandbox-location|Session._get_%s_sandbox|'
-                                   'local' % k,
-                                   {'what': '%s sandbox of %s is %s, documented'
-                                            ' hierarchy gives %s'
-                                            % (k, t['uid'], got, tm.sbx[k])},
-                                   replay)
+        w.pump(w.sched, rpc.TMGR_SCHEDULING_QUEUE)
+        pend = w.net.queues.get(rpc.TMGR_STAGING_INPUT_QUEUE) or []
+        for bulk in pend:
+            for t in bulk:
+                tm = by_uid[t['uid']]
+                for key, dirs in (('input_staging', tm.ins),
+                                  ('output_staging', tm.outs)):
+                    for d, sd in zip(dirs, t['description'].get(key) or []):
+                        tm.expanded[(d.direction, d.idx)] = (sd['source'],
+                                                             sd['target'],
+                                                             sd['action'])
+                if verbose:
+                    print('  %s sandboxes: %s' % (t['uid'],
+                          {k: t[k] for k in t if k.endswith('_sandbox')}))
+                    print('  %s expanded : %s' % (t['uid'], tm.expanded))
 
-    # -- input staging ---------------------------------------------------------
-    w.pump(w.tmgr_in, rpc.TMGR_STAGING_INPUT_QUEUE)
-    w.move('%s/%s' % (rpc.PROXY_TASK_QUEUE, PID), rpc.AGENT_STAGING_INPUT_QUEUE,
-           merge)
-    w.pump(w.agent_in, rpc.AGENT_STAGING_INPUT_QUEUE)
+        # the sandboxes the real getters assigned must be the documented ones
+        for bulk in pend:
+            for t in bulk:
+                tm = by_uid[t['uid']]
+                for k in ('client', 'resource', 'session', 'pilot', 'task'):
+                    got = os.path.normpath(ru.Url(t['%s_sandbox' % k]).path)
+                    if got != tm.sbx[k]:
+                        part.violation('sandbox-location|Session._get_%s_sandbox|'
+                                       'local' % k,
+                                       {'what': '%s sandbox of %s is %s, documented'
+                                                ' hierarchy gives %s'
+                                                % (k, t['uid'], got, tm.sbx[k])},
+                                       replay)
 
-    passed = {t['uid']: t for t in w.drain(rpc.AGENT_SCHEDULING_QUEUE)}
-    states = w.states()
-    last   = {uid: seq[-1] for uid, seq in states.items()}
-    set_positions(w, order, 'in')
+        # -- input staging ---------------------------------------------------------
+        w.pump(w.tmgr_in, rpc.TMGR_STAGING_INPUT_QUEUE)
+        w.move('%s/%s' % (rpc.PROXY_TASK_QUEUE, PID), rpc.AGENT_STAGING_INPUT_QUEUE,
+               merge)
+        w.pump(w.agent_in, rpc.AGENT_STAGING_INPUT_QUEUE)
 
-    def sibling_trigger(tm, direction, site):
-        bad = [d for t2 in tests if t2 is not tm
-                 for d in (t2.ins if direction == 'in' else t2.outs)
-                 if not d.carriable or d.refusable]
-        pos = [p for s, p in tm.rank.items() if WORK_STATE.get(s) == site]
-        return 'sibling-%s:handled-%s' % (
-               (bad[0].refusable if bad[0].carriable else 'missing-source')
-               if bad else 'good', pos[0] if pos else '?')
+        passed = {t['uid']: t for t in w.drain(rpc.AGENT_SCHEDULING_QUEUE)}
+        states = w.states()
+        last   = {uid: seq[-1] for uid, seq in states.items()}
+        set_positions(w, seen, 'in')
 
-    for tm in order:
+        def sibling_trigger(tm, direction, site):
+            bad = [d for t2 in tests if t2 is not tm
+                     for d in (t2.ins if direction == 'in' else t2.outs)
+                     if not d.carriable or d.refusable or d.pre]
+            pos = [p for s, p in tm.rank.items() if WORK_STATE.get(s) == site]
+            return 'sibling-%s:handled-%s' % (
+                   ((bad[0].refusable or 'target-preexists')
+                    if bad[0].carriable else 'missing-source')
+                   if bad else 'good', pos[0] if pos else '?')
 
-        uid  = tm.uid
-        bad  = [d for d in tm.ins if not d.carriable]
-        ref  = [d for d in tm.ins if d.refusable]
-        st   = last.get(uid, {}).get('state')
-        role = 'task-under-test' if tm.test else 'bystander'
+        for tm in tasks:
 
-        if uid in passed:
-            tm.status = 'passed'
-            seq = [t['state'] for t in states.get(uid, [])]
-            if st != rps.AGENT_SCHEDULING_PENDING or rps.FAILED in seq:
-                part.violation('failed-and-passed|%s|%s'
-                               % (fail_site(w, uid, states), role),
-                               {'what': '%s was passed on to the agent '
-                                        'scheduler but was also announced as '
-                                        'FAILED: published states %s'
-                                        % (uid, seq)}, replay)
-        elif st == rps.FAILED:
-            tm.status = 'failed'
-        else:
-            tm.status = 'lost'
-            part.violation('neither-passed-nor-failed|%s|%s'
-                           % (fail_site(w, uid, states),
-                              tm.ins[0].cls() if tm.ins else 'none'),
-                           {'what': '%s left input staging neither passed on '
-                                    'nor FAILED (last state %s)' % (uid, st)},
-                           replay)
+            uid  = tm.uid
+            bad  = [d for d in tm.ins if not d.carriable]
+            ref  = [d for d in tm.ins if d.refusable or d.pre]
+            st   = last.get(uid, {}).get('state')
+            role = 'task-under-test' if tm.test else 'bystander'
 
-        if verbose:
-            print('  %s after input staging: %s (published: %s)%s'
-                  % (uid, tm.status, [t['state'] for t in states.get(uid, [])],
-                     ' exception=%s' % last[uid].get('exception')
-                     if tm.status == 'failed' else ''))
-
-        tobs = list()
-        if tm.test:
-            tobs.append('in:%s' % tm.status)
-            if tm.status == 'failed':
-                tobs.append('exception-recorded=%s'
-                            % bool(last[uid].get('exception')))
-
-        if tm.status == 'passed':
-            for d in bad:
-                part.unstageable(d, 'unstageable-not-failed|%s|%s'
-                                 % unstageable_site(w, d),
-                                 {'what': '%s: source %s of input directive %r'
-                                          ' does not exist, but the task was '
-                                          'passed on to the agent scheduler'
-                                          % (uid, d.src_path, d.as_input())},
-                                 replay)
-                tobs.append('%s:missing-ignored' % d.action)
-            check_targets(part, w, tm, tm.ins, replay, verbose, tobs)
-
-        elif tm.status == 'failed':
-            if not bad and not ref:
-                site = fail_site(w, uid, states)
-                detail = {'what': '%s (submitted %s): every input directive (%s)'
-                                  ' can be carried out, but the task was '
-                                  'FAILED: %s'
-                                  % (uid, tm.pos,
-                                     [d.as_input() for d in tm.ins],
-                                     last[uid].get('exception'))}
-                if tm.test:
-                    part.task_failed(good_failed(site, tm, tm.ins), tm.ins,
-                                     detail, replay)
-                else:
-                    part.violation('bystander-failed|%s|%s'
-                                   % (site, sibling_trigger(tm, 'in', site)),
-                                   detail, replay)
-            elif not bad:
-                tobs.append('refused:%s' % ref[0].refusable)
-
-        if tm.test:
-            obs.extend(tm.tag(x) for x in tobs)
-
-    foreign_data(part, w, order, 'input', replay, verbose)
-
-    # -- execution (harness) ---------------------------------------------------
-    running = list()
-    for tm in order:
-        if tm.status != 'passed':
-            continue
-        task = passed[tm.uid]
-        for d in tm.outs:
-            if d.present:
-                write_file(d.src_path, d.content)
-        task['state']        = rps.AGENT_STAGING_OUTPUT_PENDING
-        task['target_state'] = tm.outcome
-        if tm.outcome == rps.DONE:
-            task['exit_code'] = 0
-        elif tm.outcome == rps.FAILED:
-            task['exit_code']        = 1
-            task['exception']        = 'RuntimeError("task failed")'
-            task['exception_detail'] = 'exit code: 1'
-        else:
-            task['exit_code'] = None
-        running.append(task)
-
-    if running:
-        if len(groups) > 1:
-            # tasks finish one after the other
-            for task in running:
-                w.net.q_put(rpc.AGENT_STAGING_OUTPUT_QUEUE, [task])
-        else:
-            w.net.q_put(rpc.AGENT_STAGING_OUTPUT_QUEUE, running)
-
-    # -- output staging --------------------------------------------------------
-    w.pump(w.agent_out, rpc.AGENT_STAGING_OUTPUT_QUEUE)
-    w.move(rpc.AGENT_COLLECTING_QUEUE, '%s/%s' % (rpc.PROXY_TASK_QUEUE, SID),
-           merge)
-    w.pump(w.tmgr_out, '%s/%s' % (rpc.PROXY_TASK_QUEUE, SID))
-
-    states = w.states()
-    last   = {uid: seq[-1] for uid, seq in states.items()}
-    set_positions(w, order, 'out')
-
-    for tm in order:
-
-        uid  = tm.uid
-        st   = last.get(uid, {}).get('state')
-        role = 'task-under-test' if tm.test else 'bystander'
-        tm.final = st
-
-        if verbose:
-            print('  %s final: %s (published: %s) exception=%s'
-                  % (uid, st, [t['state'] for t in states.get(uid, [])],
-                     last.get(uid, {}).get('exception')))
-
-        if tm.status != 'passed':
-            # never ran: none of its output directives may be carried out
-            for d in tm.outs:
-                if os.path.lexists(d.tgt_path) and not d.degenerate:
-                    part.violation('failed-task-output-staged|%s|'
-                                   'failed-at-input:%s' % (d.site(), d.action),
-                                   {'what': '%s failed in input staging, but '
-                                            '%s exists' % (uid, d.tgt_path)},
-                                   replay)
-            continue
-
-        bad  = [d for d in tm.outs if not d.carriable]
-        ref  = [d for d in tm.outs if d.refusable]
-        tobs = ['out:%s->%s' % (tm.outcome, st)]
-        if st == rps.FAILED and tm.outcome == rps.DONE:
-            tobs.append('exception-recorded=%s'
-                        % bool(last[uid].get('exception')))
-
-        if st not in rps.FINAL:
-            part.violation('not-final|%s|%s' % (fail_site(w, uid, states),
-                           tm.outs[0].cls() if tm.outs else 'none'),
-                           {'what': '%s: last published state after output '
-                                    'staging is %s' % (uid, st)}, replay)
-
-        elif tm.outcome == rps.DONE:
-
-            if st == rps.DONE:
+            if uid in passed:
+                tm.status = 'passed'
                 seq = [t['state'] for t in states.get(uid, [])]
-                if rps.FAILED in seq:
-                    part.violation('failed-and-done|%s|%s'
+                if st != rps.AGENT_SCHEDULING_PENDING or rps.FAILED in seq:
+                    part.violation('failed-and-passed|%s|%s'
                                    % (fail_site(w, uid, states), role),
-                                   {'what': '%s is DONE but was also announced'
-                                            ' as FAILED: published states %s'
+                                   {'what': '%s was passed on to the agent '
+                                            'scheduler but was also announced as '
+                                            'FAILED: published states %s'
                                             % (uid, seq)}, replay)
+            elif st == rps.FAILED:
+                tm.status = 'failed'
+            else:
+                tm.status = 'lost'
+                part.violation('neither-passed-nor-failed|%s|%s'
+                               % (fail_site(w, uid, states),
+                                  tm.ins[0].cls() if tm.ins else 'none'),
+                               {'what': '%s left input staging neither passed on '
+                                        'nor FAILED (last state %s)' % (uid, st)},
+                               replay)
+
+            if verbose:
+                print('  %s after input staging: %s (published: %s)%s'
+                      % (uid, tm.status, [t['state'] for t in states.get(uid, [])],
+                         ' exception=%s' % last[uid].get('exception')
+                         if tm.status == 'failed' else ''))
+
+            tobs = list()
+            if tm.test:
+                tobs.append('in:%s' % tm.status)
+                if tm.status == 'failed':
+                    tobs.append('exception-recorded=%s'
+                                % bool(last[uid].get('exception')))
+
+            if tm.status == 'passed':
                 for d in bad:
                     part.unstageable(d, 'unstageable-not-failed|%s|%s'
                                      % unstageable_site(w, d),
-                                     {'what': '%s: source %s of output '
-                                              'directive %r does not exist, '
-                                              'but the task is DONE'
-                                              % (uid, d.src_path,
-                                                 d.as_input())},
+                                     {'what': '%s: source %s of input directive %r'
+                                              ' does not exist, but the task was '
+                                              'passed on to the agent scheduler'
+                                              % (uid, d.src_path, d.as_input())},
                                      replay)
                     tobs.append('%s:missing-ignored' % d.action)
-                check_targets(part, w, tm, tm.outs, replay, verbose, tobs)
+                check_targets(part, w, tm, tm.ins, replay, verbose, tobs)
 
-            elif st == rps.FAILED:
-                ibad = [d for d in tm.ins if not d.carriable]
-                if not bad and not ref and not ibad:
+            elif tm.status == 'failed':
+                if not bad and not ref:
                     site = fail_site(w, uid, states)
-                    detail = {'what': '%s (submitted %s) ran successfully and '
-                                      'every output directive (%s) can be '
-                                      'carried out, but it is FAILED: %s'
+                    detail = {'what': '%s (submitted %s): every input directive (%s)'
+                                      ' can be carried out, but the task was '
+                                      'FAILED: %s'
                                       % (uid, tm.pos,
-                                         [d.as_input() for d in tm.outs],
+                                         [d.as_input() for d in tm.ins],
                                          last[uid].get('exception'))}
                     if tm.test:
-                        part.task_failed(good_failed(site, tm, tm.outs),
-                                         tm.outs, detail, replay)
+                        part.task_failed(good_failed(site, tm, tm.ins), tm.ins,
+                                         detail, replay)
                     else:
                         part.violation('bystander-failed|%s|%s'
-                                       % (site, sibling_trigger(tm, 'out',
-                                                                site)),
+                                       % (site, sibling_trigger(tm, 'in', site)),
                                        detail, replay)
-                elif not bad and not ibad:
-                    tobs.append('refused:%s' % ref[0].refusable)
+                elif not bad:
+                    tobs.append('refused:%s' % (ref[0].refusable or
+                                                 'target-preexists'))
+
+            if tm.test:
+                obs.extend(tm.tag(x) for x in tobs)
+
+        foreign_data(part, w, seen, 'input', replay, verbose)
+
+        # -- execution (harness) ---------------------------------------------------
+        running = list()
+        for tm in tasks:
+            if tm.status != 'passed':
+                continue
+            task = passed[tm.uid]
+            for d in tm.outs:
+                if d.present:
+                    write_file(d.src_path, d.content)
+            preexisting([tm], 'out')
+            task['state']        = rps.AGENT_STAGING_OUTPUT_PENDING
+            task['target_state'] = tm.outcome
+            if tm.outcome == rps.DONE:
+                task['exit_code'] = 0
+            elif tm.outcome == rps.FAILED:
+                task['exit_code']        = 1
+                task['exception']        = 'RuntimeError("task failed")'
+                task['exception_detail'] = 'exit code: 1'
             else:
-                part.violation('done-task-canceled|%s|%s'
-                               % (fail_site(w, uid, states),
-                                  tm.outs[0].cls() if tm.outs else 'none'),
-                               {'what': '%s ran successfully, final state %s'
-                                        % (uid, st)}, replay)
+                task['exit_code'] = None
+            running.append(task)
 
-        else:
-            # task failed / was canceled
-            staged = [d for d in tm.outs
-                        if os.path.lexists(d.tgt_path) and not d.degenerate]
-            if not tm.soe:
-                for d in staged:
-                    part.violation('failed-task-output-staged|%s|%s:%s'
-                                   % (d.site(), tm.outcome, d.action),
-                                   {'what': '%s ended %s without '
-                                            'stage_on_error, but output '
-                                            'directive %r was carried out: %s '
-                                            'exists' % (uid, tm.outcome,
-                                                        d.as_input(),
-                                                        d.tgt_path)}, replay)
-            tobs.append('soe=%s:staged=%s' % (tm.soe, ','.join(
-                        '%s' % d.action for d in staged) or '-'))
-            if st == rps.DONE:
-                part.violation('failed-task-done|%s|%s'
-                               % (fail_site(w, uid, states), tm.outcome),
-                               {'what': '%s ended %s in execution but its '
-                                        'final state is DONE' % (uid,
-                                                                 tm.outcome)},
-                               replay)
+        if running:
+            if len(groups) > 1:
+                # tasks finish one after the other
+                for task in running:
+                    w.net.q_put(rpc.AGENT_STAGING_OUTPUT_QUEUE, [task])
+            else:
+                w.net.q_put(rpc.AGENT_STAGING_OUTPUT_QUEUE, running)
 
-        if tm.test:
-            obs.extend(tm.tag(x) for x in tobs)
+        # -- output staging --------------------------------------------------------
+        w.pump(w.agent_out, rpc.AGENT_STAGING_OUTPUT_QUEUE)
+        w.move(rpc.AGENT_COLLECTING_QUEUE, '%s/%s' % (rpc.PROXY_TASK_QUEUE, SID),
+               merge)
+        w.pump(w.tmgr_out, '%s/%s' % (rpc.PROXY_TASK_QUEUE, SID))
 
-    foreign_data(part, w, order, 'output', replay, verbose)
+        states = w.states()
+        last   = {uid: seq[-1] for uid, seq in states.items()}
+        set_positions(w, seen, 'out')
+
+        for tm in tasks:
+
+            uid  = tm.uid
+            st   = last.get(uid, {}).get('state')
+            role = 'task-under-test' if tm.test else 'bystander'
+            tm.final = st
+
+            if verbose:
+                print('  %s final: %s (published: %s) exception=%s'
+                      % (uid, st, [t['state'] for t in states.get(uid, [])],
+                         last.get(uid, {}).get('exception')))
+
+            if tm.status != 'passed':
+                # never ran: none of its output directives may be carried out
+                for d in tm.outs:
+                    if os.path.lexists(d.tgt_path) and not d.degenerate:
+                        part.violation('failed-task-output-staged|%s|'
+                                       'failed-at-input:%s' % (d.site(), d.action),
+                                       {'what': '%s failed in input staging, but '
+                                                '%s exists' % (uid, d.tgt_path)},
+                                       replay)
+                continue
+
+            bad  = [d for d in tm.outs if not d.carriable]
+            ref  = [d for d in tm.outs if d.refusable or d.pre]
+            tobs = ['out:%s->%s' % (tm.outcome, st)]
+            if st == rps.FAILED and tm.outcome == rps.DONE:
+                tobs.append('exception-recorded=%s'
+                            % bool(last[uid].get('exception')))
+
+            if st not in rps.FINAL:
+                part.violation('not-final|%s|%s' % (fail_site(w, uid, states),
+                               tm.outs[0].cls() if tm.outs else 'none'),
+                               {'what': '%s: last published state after output '
+                                        'staging is %s' % (uid, st)}, replay)
+
+            elif tm.outcome == rps.DONE:
+
+                if st == rps.DONE:
+                    seq = [t['state'] for t in states.get(uid, [])]
+                    if rps.FAILED in seq:
+                        part.violation('failed-and-done|%s|%s'
+                                       % (fail_site(w, uid, states), role),
+                                       {'what': '%s is DONE but was also announced'
+                                                ' as FAILED: published states %s'
+                                                % (uid, seq)}, replay)
+                    for d in bad:
+                        part.unstageable(d, 'unstageable-not-failed|%s|%s'
+                                         % unstageable_site(w, d),
+                                         {'what': '%s: source %s of output '
+                                                  'directive %r does not exist, '
+                                                  'but the task is DONE'
+                                                  % (uid, d.src_path,
+                                                     d.as_input())},
+                                         replay)
+                        tobs.append('%s:missing-ignored' % d.action)
+                    check_targets(part, w, tm, tm.outs, replay, verbose, tobs)
+
+                elif st == rps.FAILED:
+                    ibad = [d for d in tm.ins if not d.carriable]
+                    if not bad and not ref and not ibad:
+                        site = fail_site(w, uid, states)
+                        detail = {'what': '%s (submitted %s) ran successfully and '
+                                          'every output directive (%s) can be '
+                                          'carried out, but it is FAILED: %s'
+                                          % (uid, tm.pos,
+                                             [d.as_input() for d in tm.outs],
+                                             last[uid].get('exception'))}
+                        if tm.test:
+                            part.task_failed(good_failed(site, tm, tm.outs),
+                                             tm.outs, detail, replay)
+                        else:
+                            part.violation('bystander-failed|%s|%s'
+                                           % (site, sibling_trigger(tm, 'out',
+                                                                    site)),
+                                           detail, replay)
+                    elif not bad and not ibad:
+                        tobs.append('refused:%s' % (ref[0].refusable or
+                                                 'target-preexists'))
+                else:
+                    part.violation('done-task-canceled|%s|%s'
+                                   % (fail_site(w, uid, states),
+                                      tm.outs[0].cls() if tm.outs else 'none'),
+                                   {'what': '%s ran successfully, final state %s'
+                                            % (uid, st)}, replay)
+
+            else:
+                # task failed / was canceled
+                staged = [d for d in tm.outs
+                            if os.path.lexists(d.tgt_path) and not d.degenerate]
+                if not tm.soe:
+                    for d in staged:
+                        part.violation('failed-task-output-staged|%s|%s:%s'
+                                       % (d.site(), tm.outcome, d.action),
+                                       {'what': '%s ended %s without '
+                                                'stage_on_error, but output '
+                                                'directive %r was carried out: %s '
+                                                'exists' % (uid, tm.outcome,
+                                                            d.as_input(),
+                                                            d.tgt_path)}, replay)
+                tobs.append('soe=%s:staged=%s' % (tm.soe, ','.join(
+                            '%s' % d.action for d in staged) or '-'))
+                if st == rps.DONE:
+                    part.violation('failed-task-done|%s|%s'
+                                   % (fail_site(w, uid, states), tm.outcome),
+                                   {'what': '%s ended %s in execution but its '
+                                            'final state is DONE' % (uid,
+                                                                     tm.outcome)},
+                                   replay)
+
+            if tm.test:
+                obs.extend(tm.tag(x) for x in tobs)
+
+        foreign_data(part, w, seen, 'output', replay, verbose)
+
+        return True
+
+    for groups in rounds:
+        if not run_round(groups):
+            break
 
     return tuple(obs)
 
@@ -1438,6 +1537,38 @@ def gen_cases(quick):
         cases.append({'part': 'both', 'in': [dict(d1)], 'out': [dict(d2)]})
         cases.append({'part': 'both', 'in': [dict(d1, present=False)],
                       'out': [dict(d2)]})
+
+    # part pre: the target exists before staging, with other bytes
+    for direction in ('in', 'out'):
+        for d in single_directives(direction, full=not quick):
+            for order in (['AB'] if quick else ['AB', 'B,A']):
+                cases.append({'part': 'pre', direction: [dict(d, pre=True)],
+                              'order': order})
+
+    # part same: successive tasks name the same target (pilot, session,
+    # resource sandbox, a task sandbox shared via `description.sandbox`);
+    # each task is staged and checked before the next one is submitted
+    for direction in ('in', 'out'):
+        for tgt in ('pilot', 'session', 'resource', 'task'):
+            def spec(action, form='dict'):
+                d = {'form': form, 'src': ['pilot', 'sub'],
+                     'tgt': [tgt, 'flat'], 'share': True}
+                if form == 'dict':
+                    d['action'] = action
+                ret = {direction: [d]}
+                if tgt == 'task':
+                    ret['sandbox'] = 'shared_sandbox'
+                return ret
+            acts = [(a, 'dict') for a in ACTIONS] + [(TRANSFER, '>')]
+            for (a1, f1), (a2, f2) in itertools.product(acts, acts):
+                cases.append(dict(spec(a1, f1), part='same', order='A;C',
+                                  more={'C': spec(a2, f2)}))
+                if not quick:
+                    for a3, f3 in acts:
+                        cases.append(dict(spec(a1, f1), part='same',
+                                          order='A;C;D',
+                                          more={'C': spec(a2, f2),
+                                                'D': spec(a3, f3)}))
 
     # part seq3: three tasks one after the other through one world
     for direction in ('in', 'out'):
@@ -1579,7 +1710,14 @@ def run(ctx):
                  '(outcome) FAILED / CANCELED x stage_on_error x output '
                  'directives; (in2/out2) all ordered pairs over %d '
                  'representative directives x which source is missing; (both) '
-                 'input x output directive on one task; (odd) file name with '
+                 'input x output directive on one task; (pre) every single '
+                 'directive with the target existing beforehand (other bytes);'
+                 ' (same) 2%s tasks, staged and checked one after the other, '
+                 'whose directives (5 actions + `f > g`) name the same target '
+                 'in the pilot / session / resource sandbox or in a task '
+                 'sandbox shared via description.sandbox; (seq3) three tasks '
+                 'with one directive each through one world, one after the '
+                 'other; (odd) file name with '
                  'space, `d/../f`, `../d/f`, host element, `f>g`, dict without '
                  'action.  Every bulk = task under test + bystander.  '
                  'distinct = distinct (part, forms, observed behaviour) '
@@ -1589,7 +1727,8 @@ def run(ctx):
                     '; missing sources: bulks forwarded merged' if ctx.quick
                     else '; missing sources: merged / one by one',
                     len(reduced_directives() if ctx.quick
-                        else medium_directives())))
+                        else medium_directives()),
+                    '' if ctx.quick else ' and 3'))
     ctx.set(distinct_nontrivial=len(ctx.outcomes))
     ctx.assume('scheduler and executor of the agent are played by the harness:'
                ' it creates the output files and sets target_state',
